@@ -1580,7 +1580,80 @@ def joint_one(R: Run, ns, cj):
     return ok
 
 
+def joint_pairs(R: Run, ns, rng):
+    """on EVERY run: several reprojections of ONE dask source that differ in exactly one argument while derived quantities
+    coincide (nodata pairs with the same fill value, resampling, destination grid of the same shape and chunks, ydim, extra
+    keywords, an explicit name=), computed together in one graph / one Dataset, against each of them computed on its own"""
+    import xarray as xr
+
+    S = ns.Affine(1, 0, 0, 0, -1, 6)
+    sg = ns.GeoBox((6, 8), S, CRS)
+    dgs = {"a": ns.GeoBox((7, 9), ns.Affine(1, 0, -2, 0, -1, 8), CRS), "b": ns.GeoBox((7, 9), ns.Affine(1, 0, 1, 0, -1, 7), CRS)}
+    for rep, dtype in enumerate(["int16", "float32", "uint8"][: R.pick(2, 3)]):
+        data = np.array([[rng.choice([0, 3, 5, 1, 2, 9]) for _ in range(8)] for _ in range(6)]).astype(dtype)
+        darr = ns.da.from_array(data, chunks=((2, 4), (3, 5)))
+        base = {"attr": 3, "dn": 7, "resampling": "nearest", "dst": "a", "kw": {}}
+        variants = [base,
+                    dict(base, attr=None), dict(base, attr=5), dict(base, attr=0),            # same fill 7, other source nodata
+                    dict(base, attr=3, dn=None), dict(base, attr=None, dn=3),                 # same fill 3
+                    dict(base, attr=0, dn=None), dict(base, attr=None, dn=0),                 # same fill 0 (falsy)
+                    dict(base, resampling="bilinear"), dict(base, resampling="average"),
+                    dict(base, dst="b"),
+                    dict(base, resampling="bilinear", kw={"XSCALE": 3, "YSCALE": 3}),
+                    dict(base, kw={"name": "warped"}), dict(base, attr=None, kw={"name": "warped"}),
+                    dict(base, attr=5, kw={"name": "warped"}), dict(base, dst="b", kw={"name": "warped"}),
+                    dict(base, kw={"src_nodata": 5}), dict(base, kw={"src_nodata": 0})]
+        if dtype.startswith("float"):
+            variants += [dict(base, attr=None, dn=None), dict(base, attr=float("nan"), dn=None), dict(base, attr=None, dn=float("nan"))]
+        cj = {"kind": "jointpairs", "dtype": dtype, "data": data_json(data, dtype),
+              "variants": [{k: (nd_json(v) if k in ("attr", "dn") else v) for k, v in va.items()} for va in variants]}
+        sig = f"joint-pairs|{dtype}"
+        try:
+            lazies = [ns.xr_reproject(ns.wrap_xr(darr, sg, nodata=va["attr"]), dgs[va["dst"]], resampling=va["resampling"],
+                                      dst_nodata=va["dn"], chunks=(3, 4), **va["kw"]) for va in variants]
+            alone = [lz.data.compute(scheduler="synchronous") for lz in lazies]
+            idx = list(range(len(lazies)))
+            runs = [("dask.compute", idx, ns.dask.compute(*[lz.data for lz in lazies], scheduler="synchronous"))]
+            if rep == 0 or not R.quick:
+                runs.append(("dask.compute reversed", idx,
+                             tuple(reversed(ns.dask.compute(*[lz.data for lz in reversed(lazies)], scheduler="synchronous")))))
+            if not R.quick:
+                runs.append(("dask.compute threads", idx, ns.dask.compute(*[lz.data for lz in lazies], scheduler="threads", num_workers=4)))
+            # one Dataset graph: the variables on the same destination grid (a Dataset aligns its variables' coordinates)
+            on_a = [i for i, va in enumerate(variants) if va["dst"] == "a"]
+            ds = xr.Dataset({f"v{i}": lazies[i] for i in on_a}).compute(scheduler="synchronous")
+            runs.append(("Dataset.compute", on_a, tuple(ds[f"v{i}"].values for i in on_a)))
+            # ydim: the same 3-d array warped along axes (0, 1) and along axes (1, 2)
+            cube = ns.da.from_array(np.arange(64).reshape(4, 4, 4).astype(dtype), chunks=(2, 2, 2))
+            g4 = ns.GeoBox((4, 4), ns.Affine(1, 0, 0, 0, -1, 4), CRS)
+            g4d = ns.GeoBox((4, 4), ns.Affine(1, 0, 1, 0, -1, 5), CRS)
+            try:
+                yl = [dask_reproject(ns, cube, g4, g4d, "nearest", None, 7, ydim=yd, chunks=(2, 2)) for yd in (0, 1)]
+                ya = [y.compute(scheduler="synchronous") for y in yl]
+                yj = ns.dask.compute(*yl, scheduler="synchronous")
+            except Skip as e:
+                note_once(str(e))
+                ya, yj = [], []
+        except Exception as e:  # pylint: disable=broad-except
+            R.oracle(False, "joint-compute-raises", cj, f"{type(e).__name__}: {e}", sig=sig)
+            continue
+        ok, what = True, ""
+        for how, which, got in runs:
+            for i, g_ in zip(which, got):
+                a_ = alone[i]
+                if not (g_.shape == a_.shape and same(g_, a_)) and ok:
+                    ok = False
+                    j = next((k for k, b_ in enumerate(alone) if k != i and b_.shape == g_.shape and same(g_, b_)), None)
+                    what = (f"{how}: reprojection {i} {variants[i]} computed together with the others differs from the same call "
+                            f"computed on its own" + (f" — it holds the pixels of reprojection {j} {variants[j]}" if j is not None else ""))
+        for i, (g_, a_) in enumerate(zip(yj, ya)):
+            if not same(g_, a_) and ok:
+                ok, what = False, f"ydim={i}: the 3-d array warped along axes ({i}, {i + 1}) computed together with the other axis choice differs from its own result"
+        R.oracle(ok, "joint-compute-differs", cj, what, sig=sig)
+
+
 def joint_compute(R: Run, ns, rng, n, dts):
+    joint_pairs(R, ns, rng)
     for _ in range(n):
         joint_one(R, ns, gen_joint(rng, dts))
 
@@ -2471,9 +2544,15 @@ def glue_xr_entry(R: Run, ns, rng, n, dts):
         line = common_line(c2, S, kind, lo, cast_nd(kw_sn, dtype), cast_nd(dn, dtype), deps_s(deps), data)
         corr_skip(R, f"c13 xr dask {val_s(cast_nd(attr, dtype))} {chunk_arg_s(arg)} " + line, guard_bad(arg, case["dh"], case["dw"], f_dask), sig=sig)
         R.corr(f"c13 xr numpy {val_s(cast_nd(attr, dtype))} {chunk_arg_s(arg)} " + line, f_numpy, sig=sig.replace("xr-entry", "xr-entry-numpy"))
+        cj = case_json(case, dtype=dtype, data=data_json(data, dtype), attr_nd=nd_json(attr), kw_src_nd=nd_json(kw_sn), dst_nd=nd_json(dn),
+                       chunks=arg, kind="entry")
+        if ("chunked" in out) != ("whole" in out) and not rejected_arg(arg, case["dh"], case["dw"]) and not (
+                arg is not None and not isinstance(arg[0], tuple) and 0 in arg) and not (
+                arg is not None and isinstance(arg[0], tuple) and (0 in arg[0] or 0 in arg[1])):
+            R.oracle(False, "reproject-raises", cj, f"xr_reproject(chunks={arg}, src_nodata={kw_sn}, dst_nodata={dn}, nodata attr {attr}), source "
+                     f"chunks {case['sy']} x {case['sx']}: the {'dask' if 'whole' in out else 'numpy'}-backed call raises, the other one answers",
+                     sig=sig + "|one-raises")
         if "chunked" in out and "whole" in out:
-            cj = case_json(case, dtype=dtype, data=data_json(data, dtype), attr_nd=nd_json(attr), kw_src_nd=nd_json(kw_sn), dst_nd=nd_json(dn),
-                           chunks=arg, kind="entry")
             ok = same(out["chunked"], out["whole"])
             key = "chunked-differs-from-whole"
             if not ok and not ((out["chunked"] != out["whole"]) & ~edge_zero(case)).any():
@@ -2681,6 +2760,35 @@ def final_glue(R: Run, ns, rng):
         R.oracle(ok, "dataset-variable-differs-from-dataarray", cj, what, sig="dataset|" + ("kw" if kw else "nokw"))
 
 
+def zero_length_chunks(R: Run, ns, rng, n):
+    """source dask arrays with ZERO-LENGTH chunks (what slicing / boolean filtering leaves behind) at every position — leading,
+    trailing and INTERIOR (between two non-empty chunks), on one or both axes: dask-backed == numpy-backed, a raise on the dask
+    path is a failure with the case as replay"""
+    def with_zero(c, where):
+        c = list(c)
+        if where == "interior" and len(c) < 2:
+            k = max(1, c[0] // 2)
+            c = [k, c[0] - k] if c[0] >= 2 else c
+        pos = {"lead": 0, "trail": len(c), "interior": max(1, len(c) // 2) if len(c) >= 2 else 0}[where]
+        c.insert(pos, 0)
+        if where == "interior" and rng.random() < 0.3:
+            c.insert(pos, 0)  # two empty chunks in a row
+        return tuple(c)
+
+    for i in range(n):
+        case = dict(gen_case(rng, rotated=(i % 4 == 3), small=True, minsize=2))
+        where = ["interior", "interior", "lead", "trail"][i % 4]
+        axes = ["y", "x", "both"][(i // 4) % 3]
+        if axes in ("y", "both"):
+            case["sy"] = with_zero(case["sy"], where)
+        if axes in ("x", "both"):
+            case["sx"] = with_zero(case["sx"], where)
+        dtype = rng.choice(["int16", "float32", "uint8"])
+        attr = rng.choice([None, 3])
+        data = gen_data(rng, (case["sh"], case["sw"]), dtype, (attr,))
+        oracle_pair(R, ns, case, dtype, data, attr, None, rng.choice(SCHEDS), rng.randrange(10**6), tag=f"zero-chunk-{where}-{axes}")
+
+
 def fractional_nodata(R: Run, ns, rng, n):
     """integer rasters with a nodata value the dtype cannot hold (2.5, -0.5, 3.75 ...): the constant blocks of
     `_dask_rio_reproject` (resolve_fill_value), the task chunks and the in-memory path must agree on the integer they
@@ -2784,6 +2892,7 @@ def run(R: Run):
         glue_unrep_pins(R, ns, rng)
         passthrough_kwargs(R, ns, rng)
         final_glue(R, ns, rng)
+        zero_length_chunks(R, ns, rng, R.pick(24, 240))
         glue_xr_entry(R, ns, rng, R.pick(64, 1600), dts)  # quick: every dtype kind x chunks= form x nodata option a few times
         mark('glue')
         # quick: each (dtype, nodata mode) pair exactly once; thorough: 14 times each with other grids / scalar forms
@@ -2857,6 +2966,30 @@ def replay(R: Run, rec) -> int:
         return 1 if R.oracle_failures else 0
     if cj.get("kind") == "scale-snap":
         scale_snap_probe(R, ns)
+        for f in R.oracle_failures:
+            print("FAIL:", f["key"], f["what"])
+        return 1 if R.oracle_failures else 0
+    if cj.get("kind") == "entry":
+        case = case_from_json(cj)
+        data = np.asarray(cj["data"]).astype(cj["dtype"])
+        attr, kw_sn, dn = nd_from_json(cj["attr_nd"]), nd_from_json(cj.get("kw_src_nd")), nd_from_json(cj["dst_nd"])
+        arg = cj.get("chunks")
+        if arg is not None:
+            arg = tuple(tuple(a) if isinstance(a, list) else a for a in arg)
+        sg, dg, _ = geoboxes(ns, case)
+        kw = {} if kw_sn is None else {"src_nodata": kw_sn}
+        res = {}
+        for path in ("numpy", "dask"):
+            try:
+                x = ns.wrap_xr(data if path == "numpy" else ns.da.from_array(data, chunks=(case["sy"], case["sx"])), sg, nodata=attr)
+                r_ = ns.xr_reproject(x, dg, dst_nodata=dn, **kw, **({} if arg is None else {"chunks": arg}))
+                res[path] = r_.values if path == "numpy" else r_.data.compute(scheduler="synchronous")
+                print(path, "-backed:\n", res[path])
+            except Exception as e:  # pylint: disable=broad-except
+                print(path, "-backed raises", type(e).__name__, e)
+        return 0 if len(res) == 2 and same(res["numpy"], res["dask"]) else 1
+    if cj.get("kind") == "jointpairs":
+        joint_pairs(R, ns, random.Random(0))
         for f in R.oracle_failures:
             print("FAIL:", f["key"], f["what"])
         return 1 if R.oracle_failures else 0
